@@ -477,6 +477,19 @@ namespace vh
         return v < 1 ? 1 : (long)v;
     }
 
+    // stride of the "exhaustive" enumerations: 1 in the thorough tier, quick_stride in the quick tier, and
+    // both thinned by 1/scale when a job asks for a reduced run (--scale < 1: sanitizer and compiler-variant jobs)
+    inline uint64_t sweep_stride(uint64_t quick_stride)
+    {
+        uint64_t s = ctx().tier ? 1 : quick_stride;
+        if (ctx().scale < 1.0)
+        {
+            uint64_t k = (uint64_t)(1.0 / ctx().scale + 0.5);
+            s *= (k | 1); // keep it odd so that it stays coprime with the power-of-two spaces
+        }
+        return s;
+    }
+
     inline int harness_main(int argc, char** argv)
     {
         Ctx& c = ctx();
